@@ -5,7 +5,7 @@ import ast
 
 from .common import R, seg
 
-NEED = ("generic",)
+NEED = ("generic", "exact")
 KV = "knotspace.KnotVector."
 G = "knotspace.GeneratorKnotVector."
 
@@ -84,7 +84,7 @@ def run(m, chk):
         "Static discharge of structural clauses of C18: normalize does not obtain the upper limit as x * (1/x) (rule R: IEEE arithmetic does not round that to 1 for every x, x / x does); shift / scale / normalize commit once, "
         "last (through the validated setter); generator results depend on degree, npts and cls / weights. Spacing, simplicity of interior knots and invariance of evaluation under reparametrisation are not decided."
     )
-    chk.decides = ["R (no multiplication by a reciprocal of an own element)", "COMMIT-LAST(shift, scale, normalize)", "DEP-MAY of the generators", 'NORMALIZE-PATHS', 'SIBLING-CAST (weight() converts no weight to the class of another weight)']
+    chk.decides = ["E8 (exact knots stay exact under shift / scale / normalize and in the generators with cls = Fraction)", "R (no multiplication by a reciprocal of an own element)", "COMMIT-LAST(shift, scale, normalize)", "DEP-MAY of the generators", 'NORMALIZE-PATHS', 'SIBLING-CAST (weight() converts no weight to the class of another weight)']
     chk.not_decided = ["equal spacing / simple interior knots", "N_i over s*U+a at s*u+a equals N_i over U at u"]
     q = KV + "normalize"
     ctx = r.root(q)
@@ -127,3 +127,9 @@ def run(m, chk):
         nn = [c.cfgnode for c in c2.calls if any(f.qual == KV + "normalize" for f in c.callees)]
         ok = ok and all(any(c2.cfg.dominates(x, R_.id) for x in nn) for R_ in rets)
         chk.ob("NORMALIZED", f"{G + name}: the result is normalised on every path", ok, loc=r.loc(c2, c2.fi.node), detail="" if ok else f"{G + name}: a vector is returned without normalize(): the interval is not [0, 1]", func=G + name, construct="generator skips normalize")
+    # exact knots stay exact: no float introduced by the library reaches the vector a generator returns (cls = Fraction) or the
+    # state shift / scale / normalize write (number-kind analysis of the exact context, as in C16)
+    from .c16 import e8_sinks
+
+    ne8 = e8_sinks(chk, m.exact(), [KV + "shift", KV + "scale", KV + "normalize", G + "bezier", G + "integer", G + "uniform", G + "random", G + "weight"])
+    chk.floor("E8", "sinks of the affine maps and the generators in the exact context", ne8, 8)
